@@ -67,6 +67,8 @@ def one_batch(seed: int) -> list:
             # the generator form of the same read
             rec("get_values", form + "-iter", a, lambda c=c: [vals(r) for r in table.iter_values(c)])
             rec("get_cells", form, a, lambda c=c: [codes(r) for r in table.get_cells(c)])
+            rec("get_values_flat", form, a, lambda c=c: vals(table.get_values(c, flat=True)))
+            rec("get_cells_flat", form, a, lambda c=c: codes(table.get_cells(c, flat=True)))
         # rows
         rows_forms = [("tuple2", (y, t)), ("str", f"{y + 1}:{t + 1}"), ("tuple4", (0, y, w, t))]
         if t < h:
@@ -81,6 +83,8 @@ def one_batch(seed: int) -> list:
             cols_forms.append(("neg", (neg(x, w), neg(z, w))))
         for form, c in cols_forms:
             rec("get_columns", form, a, lambda c=c: [tl.col_code(k) for k in table.get_columns(c)])
+            for sc in sorted(set(state["cols"]) - {0}):
+                rec("get_columns_style", form, dict(a, s=sc), lambda c=c, sc=sc: [tl.col_code(k) for k in table.get_columns(c, style=f"co{sc}")])
         for form, c in (("int", x), ("str", alpha(x)), ("neg", neg(x, w)), ("lower", alpha(x).lower())):
             rec("get_column_values", form, a, lambda c=c: vals(table.get_column_values(c)))
         # row-level range
@@ -103,6 +107,7 @@ def generate(n: int, seed: int, procs=None) -> list:
 
 
 DEPTH = {"get_value": 0, "get_cell": 0, "get_values": 2, "get_cells": 2, "get_rows": 2, "get_columns": 1,
+         "get_values_flat": 1, "get_cells_flat": 1, "get_columns_style": 1,
          "get_row": 1, "get_column_values": 1, "row_get_values": 1}
 
 
